@@ -288,7 +288,7 @@ def _conjuncts(test):
 def rule_e(ctx, ix):
     """A subset that may belong to a group is detached from its dataset only together with its group membership."""
     R = 'C06.e'
-    ctx.describe(R, 'every loop that deletes subsets of a dataset / group keeps the group side consistent', floor=4)
+    ctx.describe(R, 'every loop that deletes subsets of a dataset / group keeps the group side consistent', floor=2)
     n = 0
     for name, mod in sorted(ix.modules.items()):
         owners = {}
@@ -360,8 +360,8 @@ def rule_e(ctx, ix):
                                         'in the collection: the group keeps listing a subset its dataset no longer carries, and the dataset '
                                         'has no subset for that group' % (name, fq, v, inner),
                           shape=it, where='%s:%d' % (mod.relpath, c.lineno))
-    if n < 4:
-        raise AnalysisError('C06.e: only %d subset-deleting loops found' % n)
+    if n < 2:
+        raise AnalysisError('C06.e: only %d subset-deleting loops found' % n)      # (sibling loops may be merged into one helper)
 
 
 def rule_f(ctx, ix):
